@@ -791,7 +791,21 @@ func (fe *FactEngine) step(ff *fnFacts, ins ssa.Instruction, st DNF, depth int) 
 			fe.noteTrackedCall(a, ins, c)
 			// a goroutine / deferred closure that calls a tracked function on every one of its paths
 			for _, tc := range fe.mustTrackedCalls(ins) {
-				fe.noteTrackedCall(a, tc, callInstrCommon(tc))
+				// express the subject in the caller's vocabulary: callee parameters become the arguments
+				name, subj, ok := fe.trackedCallee(nil, callInstrCommon(tc))
+				if !ok {
+					continue
+				}
+				sub := map[string]*Term{}
+				if es := fe.cg.SiteOut[ins]; len(es) == 1 {
+					for i, prm := range es[0].Callee.Params {
+						if i < len(c.Args) {
+							sub[fe.ts.Of(prm).String()] = fe.resolve(a, c.Args[i])
+						}
+					}
+				}
+				subj = subj.Subst(sub)
+				a.addAtoms([]atom{{"c:" + name + "(" + subj.String() + ")", subj, true}})
 			}
 		}
 		return st
